@@ -891,8 +891,9 @@ def cinter_functions():
             if not m2: raise ExtractionError("%s: try without catch(...)" % name)
             d0 = c1 + 1 + m2.end() - 1; d1 = X.match_close(blank, d0, "{", "}")
             h1 = " ".join(body[c0 + 1:c1].split()); h2 = " ".join(body[d0 + 1:d1].split())
-            if h1 != h2: raise ExtractionError("%s: the two catch handlers differ (%r vs %r)" % (name, h1, h2))
-            handler = "if (vp_thrown) { vp_thrown = 0; %s }" % h2
+            # every exception the operations throw (runtime_error, logic_error, bad_alloc) derives from std::exception: the first
+            # handler is the one that runs; catch(...) is only reachable for foreign exceptions, which are not modelled
+            handler = "if (vp_thrown) { vp_thrown = 0; %s }" % h1
             B = body[b0 + 1:b1]
             B = re.sub(r"return\s*\(\s*(vp_m_\w+\([^;]*\))\s*\);", lambda mm: "{ %s vp_r = %s; %s return(vp_r); }" % (ret, mm.group(1), handler), B)
             def after(mm): return mm.group(0) + " " + handler
